@@ -545,6 +545,14 @@ theorem iface_eq_fix_ok : Gen.Script.sameValueGuard = true ∧
 right operand is an int64 — the `neqFlt = false` of `Dev.current` -/
 theorem neq_float_fix_ok : Gen.Script.neqFloatGuarded = true := by decide
 
+/-- regression tripwire over the helper of 24fcf54 itself: its declaration, as go/printer writes it, is
+the reviewed text (any edit of `cmpIntFloat` — a guard turned from `<` to `<=`, say — breaks this until the
+new text has been reviewed against the exact comparison `Flt.lt`/`Flt.eq` of the model and re-pinned; the
+run over the boundary pairs around 0, ±2^53, ±2^63 is what checks its behaviour) -/
+theorem cmp_int_float_src_ok : Gen.Script.cmpIntFloatSrc =
+    "func cmpIntFloat(i int64, f float64) int {\n\tswitch {\n\tcase f != f:\n\t\treturn 2\n\tcase 9223372036854775808.0 <= f:\n\t\treturn -1\n\tcase f < -9223372036854775808.0:\n\t\treturn 1\n\t}\n\tt := math.Trunc(f)\n\tswitch ti := int64(t); {\n\tcase i < ti:\n\t\treturn -1\n\tcase ti < i:\n\t\treturn 1\n\tcase t < f:\n\t\treturn -1\n\tcase f < t:\n\t\treturn 1\n\t}\n\treturn 0\n}" := by
+  decide +kernel
+
 theorem current_eq_fixed : Dev.current = Dev.fixed := rfl
 
 /-! ### No stack underflow on compiled templates
